@@ -367,8 +367,10 @@ def emit(prop, tier, seed, t0, runs, extra_findings=(), level="model_checking", 
                           "the harness projection (flatten + to_be_bytes of std types) is faithful",
                           "the byte-level reference in spec/*.tla transcribes the Cisco V5/V7 layouts, RFC 3954 and RFC 7011 correctly"],
           "wall_s": round(time.time() - t0, 1), "violations": len(seen)}
-    os.makedirs(os.path.join(vf.VERIF, "evidence"), exist_ok=True)
-    with open(os.path.join(vf.VERIF, "evidence", prop + ".json"), "w") as f:
+    # evidence describes /repo itself; a run against a scratch copy (seeded change) keeps its record in its own output directory
+    evdir = os.path.join(vf.VERIF, "evidence") if vf.REPO == "/repo" else os.path.join(vf.OUT, "evidence-scratch")
+    os.makedirs(evdir, exist_ok=True)
+    with open(os.path.join(evdir, prop + ".json"), "w") as f:
         json.dump(ev, f, indent=1)
     return 1 if seen else 0
 
